@@ -9,15 +9,15 @@ PY = "PYTHONPATH=/repo PYTHONHASHSEED=0 /venv/bin/python run.py"
 CHECKS = {
     "C09": dict(
         category="exploration",
-        text="Sampled 2-safety check: worlds that use randomness on purpose (deadline variance, Poisson/Gamma arrivals, conditionals, runtime variance, multi-resource pools, closed loop; EDF/FIFO/LSF/Clockwork) are run through `python main.py --flagfile ... --random_seed=N` twice in fresh processes with different PYTHONHASHSEED; Determinism.tla walks both CSV traces in lock-step and requires equal observations (everything except true_runtime and echoed file names), classifying the first divergence; controls: equal hash seeds, and different random seeds (must differ).",
+        text="Sampled 2-safety check: worlds that use randomness on purpose (deadline variance, Poisson/Gamma arrivals, conditionals, runtime variance, multi-resource pools, closed loop; EDF/FIFO/LSF/Clockwork/BranchPrediction), in every workload mode main.py can run offline (YAML/JSON descriptions, Alibaba trace replay on generated pickled traces, Pylot and Clockwork-bursty loaders through a driver that performs main.main's steps), are run twice in fresh processes with different PYTHONHASHSEED; Determinism.tla walks both CSV traces in lock-step and requires equal observations (everything except true_runtime and echoed file names), classifying the first divergence; controls: equal hash seeds, and different random seeds (must differ).",
         design_ref="DESIGN.md §5 C09",
         note="a model cannot prove the absence of hidden nondeterminism: sampled pairs only; trusted: TLC as comparator, CSV splitting",
         technique="TLA+ lock-step comparator (Determinism.tla) over pairs of traces of fresh main.py processes",
     ),
     "C10": dict(
-        text="Decision.tla: ValidDecision(call) = returns normally, one decision per task, only offered / previously scheduled and not started tasks, planners answer every offered task, existing pool/worker, strategy of the task, time not in the past / before release, CapacityOK at every planned instant (with existence of a worker assignment for pool-only placements, per-policy interval conventions), side-effect freedom; call records from real simulations (EDF, FIFO, LSF, ILP, TetriSched-Gurobi/CPLEX, Clockwork) and from direct calls of every policy incl. Z3 on mixed RUNNING/SCHEDULED/RELEASED/VIRTUAL states reached by a hostile simulation prefix are judged by TLC; hand-written satisfiable / falsifiable records sanity-check the contract.",
+        text="Decision.tla: ValidDecision(call) = returns normally, one decision per task, only offered / previously scheduled and not started tasks, planners answer every offered task, existing pool/worker, strategy of the task, time not in the past / before release, CapacityOK at every planned instant (with existence of a worker assignment for pool-only placements, per-policy interval conventions), side-effect freedom; call records from real simulations (EDF, FIFO, LSF, ILP, TetriSched-Gurobi/CPLEX, Clockwork) and from direct calls of every policy incl. Z3 on mixed RUNNING/SCHEDULED/RELEASED/VIRTUAL states reached by a hostile simulation prefix are judged by TLC; staged states (a harness scheduler drives real simulations to a directed grid: RUNNING past its deadline / on time, SCHEDULED for later, released at / after another task's deadline, tight / loose newcomers) on which every planner is invoked with enforcement on and off; option space incl. preemptive EDF/LSF, BranchPrediction, ILP/CPLEX batching, Clockwork run_load; hand-written satisfiable / falsifiable records sanity-check the contract.",
         design_ref="DESIGN.md §5 C10",
-        note="trusted: TLC, tracer projection; solver instances limited by the restricted Gurobi / CPLEX CE licences; preemptive mode, batching and Clockwork profile loading not exercised",
+        note="trusted: TLC, tracer projection; solver instances limited by the restricted Gurobi / CPLEX CE licences; planner worlds keep runtime variance 0; TetriSched (C++ extension) and Graphene policies cannot be built here",
         technique="TLA+ decision contract (Decision.tla) evaluated by TLC on recorded calls of the real policies",
     ),
     "C11": dict(
@@ -27,7 +27,7 @@ CHECKS = {
         technique="TLA+ planning rules (PlanRules.tla) checked by TLC on returned plans, model solution pools and spec-enumerated violating plans fixed in the real solver model",
     ),
     "C12": dict(
-        text="PlanRules.tla: Admit / HopelessHandled / DeadlineOK on returned plans of EDF, FIFO, Clockwork, ILP, both TetriSched formulations over deadlines {past, tight-1, tight, tight+1, loose}; every pool solution of the captured models; TLC-enumerated plans violating ONLY the deadline must be infeasible in the model; end-to-end runs of the planners with exact runtimes: every completed task completed by its deadline.",
+        text="PlanRules.tla: Admit / HopelessHandled / DeadlineOK on returned plans of EDF, FIFO, Clockwork, ILP, both TetriSched formulations over deadlines {past, tight-1, tight, tight+1, loose}; every pool solution of the captured models; TLC-enumerated plans violating ONLY the deadline must be infeasible in the model; multi-invocation scenarios (one scheduler object, answers applied as the simulator does, new urgent / loose / hopeless work, re-planned SCHEDULED tasks and rebuilt batches) incl. ILP / TetriSched-CPLEX batching; end-to-end runs of the planners with exact runtimes: every completed task completed by its deadline, every scheduler invocation inside them a judged record.",
         design_ref="DESIGN.md §5 C12",
         note="as C11; ILP in task-by-task mode as the property states",
         technique="TLA+ planning rules (PlanRules.tla) checked by TLC on returned plans, model solution pools, spec-enumerated late plans fixed in the real solver model, and end-to-end traces",
@@ -69,7 +69,7 @@ CHECKS = {
         technique="TLA+ transcription of the frontier (Simulator.tla Schedulable) model-checked in SimMC + trace validation of real get_schedulable_tasks calls",
     ),
     "C01": dict(
-        text='Invariants C01_NoOversub / C01_LedgerAgrees / C01_SingleWorker are model-checked on SimMC (hostile policy naming full pools, all instants) and evaluated by TLC in every state of every recorded trace of the real simulator; the logged per-instance availability and occupants must equal what the handler operators compute (Worker place/remove first-fit semantics from LedgerOps).',
+        text='Invariants C01_NoOversub / C01_LedgerAgrees / C01_Backed (the demand of every occupant backed by what it holds; profiles re-loaded while pending) / C01_SingleWorker are model-checked on SimMC (hostile policy naming full pools, all instants) and evaluated by TLC in every state of every recorded trace of the real simulator; the logged per-instance availability and occupants must equal what the handler operators compute (Worker place/remove first-fit semantics from LedgerOps).',
         design_ref='DESIGN.md §5 C01',
         note="trusted: TLC; the tracer's projection of the Simulator state (harness/simrun.py); scheduler answers, draws and fuzz bound from the log; SimMC bounded to the small worlds of harness/simmc.py; corpus = generated + directed worlds (EDF/FIFO/LSF/hostile policies)",
         technique='TLA+ spec of the simulator loop (Simulator.tla): TLC exhaustive exploration under an arbitrary policy (SimMC) + trace validation of real simulate() runs (SimTrace)',
@@ -99,7 +99,7 @@ CHECKS = {
         technique='TLA+ spec of the simulator loop (Simulator.tla): TLC exhaustive exploration under an arbitrary policy (SimMC) + trace validation of real simulate() runs (SimTrace)',
     ),
     "C07": dict(
-        text="NotifyCompletion for conditional tasks with all draws explored in SimMC (C07_OneBranch, closure of untaken branches up to the terminal); in recorded traces the logged random.choices call must have the conditional's children as population and a non-zero-weight result, and the released / cancelled tasks must equal the spec's.",
+        text="NotifyCompletion for conditional tasks with all draws explored in SimMC (C07_OneBranch, closure of untaken branches up to the terminal); in recorded traces the logged random.choices call must have the conditional's children as population and a non-zero-weight result, and the released / cancelled tasks must equal the spec's; with conditionals resolved at submission C07_ResolvedAtSubmission (only the branch fixed at creation is ever released / running / completed) is an invariant of SimMC and of every trace state.",
         design_ref='DESIGN.md §5 C07',
         note="trusted: TLC; the tracer's projection of the Simulator state (harness/simrun.py); scheduler answers, draws and fuzz bound from the log; SimMC bounded to the small worlds of harness/simmc.py; corpus = generated + directed worlds (EDF/FIFO/LSF/hostile policies)",
         technique='TLA+ spec of the simulator loop (Simulator.tla): TLC exhaustive exploration under an arbitrary policy (SimMC) + trace validation of real simulate() runs (SimTrace)',
@@ -111,7 +111,7 @@ CHECKS = {
         technique='TLA+ spec of the simulator loop (Simulator.tla): TLC exhaustive exploration under an arbitrary policy (SimMC) + trace validation of real simulate() runs (SimTrace)',
     ),
     "C17": dict(
-        text="Dag.tla defines Reach/TopoOK/Depth/Paths/LongestWeight (two ways, cross-checked by TLC on all small graphs)/Dependent/BfsOK/DfsOK; every public Graph/TaskGraph/JobGraph call on all labelled DAGs <= 4 nodes (all child orders, three insertion styles), all upper-triangular 5-node DAGs, random DAGs up to 40 nodes and cyclic graphs is recorded and judged relationally by TLC (DagTrace.tla).",
+        text="Dag.tla defines Reach/TopoOK/Depth/Paths/LongestWeight (two ways, cross-checked by TLC on all small graphs)/Dependent/BfsOK/DfsOK; every public Graph/TaskGraph/JobGraph call on all labelled DAGs <= 4 nodes (all child orders, three insertion styles), all upper-triangular 5-node DAGs, random DAGs up to 40 nodes and cyclic graphs is recorded and judged relationally by TLC; the graph OBJECT is a state machine (add_node / add_child / remove-of-a-source as actions of Dag.tla, ObjSpec model-checked, walks replayed on real objects): queries are shuffled, repeated, asked between mutations and judged against the graph at their version, incl. get_node_depth(func=min) (DagTrace.tla).",
         design_ref="DESIGN.md §5 C17",
         note="trusted: TLC, JSON encoding of call records; exhaustive only up to the stated sizes",
         technique="TLA+ definitions (Dag.tla) model-checked with TLC + call-record validation of the real graph algorithms",
